@@ -2,6 +2,8 @@
 from __future__ import annotations
 
 import copy
+import json
+import os
 import inspect
 import pickle
 import random
@@ -32,7 +34,7 @@ ASSUMPTIONS = [
     "difference there proves inequality, agreement does not prove equality and is then not used to demand ==)",
 ]
 MIN_MONITORS = {"pair": 20000, "eq-implies-hash": 20000, "eq-implies-same": 3000, "equal-by-construction": 6000,
-                "accessor-mutation": 15000, "pickle": 6000, "bls-pair": 4500, "bls-equal-sets": 1500, "expr-pair": 4000, "unchanged-after-pickling": 350, "accessor-first-read": 3000}
+                "accessor-mutation": 15000, "pickle": 6000, "bls-pair": 4500, "bls-equal-sets": 1500, "expr-pair": 4000, "unchanged-after-pickling": 350, "accessor-first-read": 3000, "pickle-other-process": 1500}
 THOROUGH_MIN_SCALE = 8
 
 
@@ -637,9 +639,98 @@ def attr_case(ctx, pydsdl, rng):
     ctx.case(("attr", repr(case)), True, classes=["attribute-kinds-" + k])
 
 
+def value_spec(rng, kinds=("rat", "rat", "bool", "str", "set", "set")):
+    k = rng.choice(kinds)
+    if k == "rat":
+        return ["rat", rng.randrange(-50, 50), rng.randrange(1, 20)]
+    if k == "bool":
+        return ["bool", rng.random() < 0.5]
+    if k == "str":
+        return ["str", "".join(rng.choice(["a", "b", "Z", "\u00e9", "\u20ac", " ", "0"]) for _ in range(rng.randrange(0, 5)))]
+    ek = rng.choice(["rat", "str", "bool"])
+    return ["set", [value_spec(rng, (ek,)) for _ in range(rng.randrange(1, 6))]]
+
+
+def cross_process_pickle(ctx, pydsdl, universes, workdir, rng):
+    """
+    Pickles model objects here - after they have been hashed, compared and queried, as any user of read_namespace would have
+    done - and lets another interpreter process with ANOTHER string-hash seed unpickle them and judge them against twins it
+    builds itself (pv/props/c18_probe.py).  State that is only valid inside the process that computed it (a memoised hash,
+    an iteration order) travels inside the pickle and shows up there.
+    """
+    import base64
+    import subprocess
+    from pv.core import PYTHON, child_env
+    from pv.props.c18_probe import build_value, norm
+
+    items = []
+    for u, text in universes:
+        routes = {"ctor": GT.construct_universe(pydsdl, u)}
+        if text:
+            d = workdir / "xp"
+            try:
+                routes["text"] = GT.read_universe(pydsdl, u, d)
+            except pydsdl.Error:
+                pass
+            finally:
+                shutil.rmtree(d, ignore_errors=True)
+        for objs in routes.values():
+            for o in objs:  # use the objects the way a program would before it stores them
+                hash(o), o == o, len({o, o}), str(o)
+                for a in o.attributes:
+                    hash(a), hash(a.data_type)
+                b = o.bit_length_set
+                hash(b), b == b, b % 8, b.min, b.max, b.is_aligned_at_byte()
+        items.append({"kind": "universe", "u": u, "pickle": base64.b64encode(pickle.dumps(routes)).decode(),
+                      "fp": {r: [norm(fingerprint(o, pydsdl)) for o in objs] for r, objs in routes.items()}})
+    specs = [value_spec(rng) for _ in range(60)]
+    vals = [build_value(pydsdl, s) for s in specs]
+    for v in vals:
+        hash(v), str(v)
+    items.append({"kind": "values", "specs": specs, "pickle": base64.b64encode(pickle.dumps(vals)).decode()})
+    trees, sets = [], []
+    for _ in range(40):
+        t1, _t2, _rel = bls_pair(rng)
+        try:
+            if R.ref_max(t1) > 60000:
+                continue
+            R.CostMeter(60000).mod(t1, 32)
+        except R.TooBig:
+            continue
+        b, _ = GB.Builder(pydsdl.BitLengthSet, random.Random(1)).build(t1)
+        hash(b), b % 32
+        trees.append(t1)
+        sets.append(b)
+    items.append({"kind": "bls", "trees": trees, "pickle": base64.b64encode(pickle.dumps(sets)).decode()})
+    work = workdir / "xproc"
+    work.mkdir(parents=True, exist_ok=True)
+    spec_path, outp = work / "spec.json", work / "out.json"
+    from pv.core import repo_root
+
+    spec_path.write_text(json.dumps({"repo": str(repo_root()), "items": items}))
+    mine = int(os.environ.get("PYTHONHASHSEED", "0") or 0)
+    try:
+        r = subprocess.run([PYTHON, "-m", "pv.props.c18_probe", str(spec_path), str(outp)], env=child_env(mine + 104729), cwd=str(work),
+                           capture_output=True, text=True, timeout=600)
+        if not outp.exists():
+            ctx.inconclusive_case("cross-process pickle probe produced nothing: %s" % r.stderr[-600:])
+            return
+        out = json.loads(outp.read_text())
+    except subprocess.TimeoutExpired:
+        ctx.inconclusive_case("cross-process pickle probe timed out")
+        return
+    finally:
+        shutil.rmtree(work, ignore_errors=True)
+    ctx.mon("pickle-other-process", out["checked"])
+    for v in out["violations"]:
+        it = items[v["item"]]
+        ctx.violation("C18/pickle-other-process/" + v["mech"], v["detail"], {"xproc": {k: it[k] for k in ("kind", "u", "specs", "trees") if k in it}})
+
+
 def run_shard(ctx):
     pydsdl = import_pydsdl()
     rng = ctx.rng
+    xproc = []
     for i in range(ctx.share(ctx.params["n"])):
         if ctx.out_of_time():
             break
@@ -659,6 +750,13 @@ def run_shard(ctx):
             ctx.violation("C18/exception", "%r" % (ex,), {"universe": u, "seed": seed, "text_first": text_first})
         if i < 1:
             ctx.samples.append({"definitions": [GT.render_def(d, u) for d in u]})
+        if len(xproc) < 40 and i % 2 == 0:
+            xproc.append((u, text_first or i % 4 == 0))
+    try:
+        with ctx.watchdog(900):
+            cross_process_pickle(ctx, pydsdl, xproc, ctx.tmp, rng)
+    except CaseTimeout:
+        ctx.inconclusive_case("watchdog (cross-process pickle)")
     for _ in range(ctx.share(ctx.params["n_bls"])):
         if ctx.out_of_time():
             break
@@ -678,7 +776,10 @@ def replay(ctx, case):
     from pv.props.c01 import totuple
 
     pydsdl = import_pydsdl()
-    if "universe" in case:
+    if "xproc" in case:
+        x = case["xproc"]
+        cross_process_pickle(ctx, pydsdl, [(fix_universe(x["u"]), True)] if x.get("u") else [], ctx.tmp, random.Random(0))
+    elif "universe" in case:
         type_case(ctx, pydsdl, fix_universe(case["universe"]), case["seed"], case["text_first"], ctx.tmp)
     elif "t1" in case:
         rng = random.Random(0)
